@@ -2082,4 +2082,30 @@ theorem exRawF_valid : ∃ a st, mkAllocation exEnv ⟨-1, -1⟩ exRawF = .ok (a
   · intro x; norm_num [exEnv]
   · decide +kernel
 
+/-- witness layout of the open finding `C12-griddify-x-before-y` (7 cells): A = [0,2]×[0,8]; four unit cells on its
+    right; the top row [0,3]×[8,9] is split at x = 1/20. -/
+def wRaw : List (RawCell ℚ) :=
+  [⟨.vec 1 4 2 8 none, [("M1", 1/2)], 0⟩,
+   ⟨.vec (5/2) (1/2) 1 1 none, [("M2", 1/4)], 0⟩, ⟨.vec (5/2) (3/2) 1 1 none, [("M2", 1/4)], 0⟩,
+   ⟨.vec (5/2) (5/2) 1 1 none, [("M2", 1/4)], 0⟩, ⟨.vec (5/2) (7/2) 1 1 none, [("M2", 1/4)], 0⟩,
+   ⟨.vec (1/40) (17/2) (1/20) 1 none, [], 0⟩, ⟨.vec (61/40) (17/2) (59/20) 1 none, [], 0⟩]
+
+theorem wRaw_valid : ∃ a st, mkAllocation exEnv ⟨-1, -1⟩ wRaw = .ok (a, st) ∧ ValidAlloc st a := by
+  apply valid_of_isOk
+  · intro rc h; simp [wRaw] at h; rcases h with rfl | rfl | rfl | rfl | rfl | rfl | rfl <;> trivial
+  · intro h; norm_num at h
+  · norm_num [exEnv]
+  · intro x; norm_num [exEnv]
+  · decide +kernel
+
+/-- executable form of `Separated` (for concrete layouts). -/
+def sepB (ε : ℚ) (l : List ℚ) : Bool := l.all fun u => l.all fun v => !(decide (u < v)) || decide (u + ε < v)
+
+theorem sepB_sound (ε : ℚ) (l : List ℚ) (h : sepB ε l = true) : Separated ε l := by
+  intro u hu v hv huv
+  simp only [sepB, List.all_eq_true, Bool.or_eq_true, Bool.not_eq_true', decide_eq_false_iff_not, decide_eq_true_eq] at h
+  rcases h u hu v hv with h | h
+  · exact absurd huv h
+  · exact h
+
 end FV.Alloc
